@@ -83,6 +83,16 @@ class StopFault(StopIteration):
     the callback in an iterator pipeline (`set(filter(...))`, a generator expression) swallows or converts it"""
 
 
+class Slotted(Vertex):
+    """a Vertex subclass that adds `__slots__` on top of the inherited instance dict: its pickled state is the PAIR
+    (dict state, slots state) from protocol 2 on"""
+    __slots__ = ("weight",)
+
+
+class SlottedU(Universe):
+    __slots__ = ("region",)
+
+
 class Interrupt(BaseException):
     """an exception that is NOT an `Exception` (KeyboardInterrupt / SystemExit style) raised by a constructor:
     code that cleans up after a failed construction in `except Exception` misses it"""
